@@ -52,8 +52,10 @@ def gen_params(rng, kind, n, smooth_free=True, exp_hi=4.0):
 LONG_SHARE = 1.0 / 500
 
 
-def gen_series(rng, m_lo=2, m_hi=60, ties_share=0.4, real_valued=False, long_share=0.0):
+def gen_series(rng, m_lo=2, m_hi=60, ties_share=0.4, real_valued=False, long_share=0.0, force_m=None):
     m = int(rng.integers(m_lo, m_hi + 1))
+    if force_m:
+        m, long_share = int(force_m), 0.0
     if long_share and rng.uniform() < long_share:
         m = int(rng.integers(1001, 1801))       # a day of minute averages: sizes at which block-wise code paths start
     x, xc = gen.gen_x(rng, m)
